@@ -70,6 +70,13 @@ def run(ck):
     check_dispatch(ck, tu)
     check_lt_protocol(ck, tu)
     check_bubble(ck, tu)
+    # the k >= 5 variants stand on the loser trees: their replay / initialisation tables are decided for the tree classes
+    # instantiated here (copy-based for small elements, pointer-based for elements larger than two words)
+    from rules import c09
+    n_trees = c09.check_trees_in(ck, tu)
+    tu_big = ir.extract("witness/C05_multiway_merge.cpp", defines=["WITNESS_T=std::string"], extra_flags=["-include", "string"])
+    n_trees += c09.check_trees_in(ck, tu_big)
+    ck.require(n_trees >= 8, "expected the copy- and pointer-based loser trees (guarded and unguarded, stable and unstable), found %d" % n_trees)
     if ck.tier == "thorough":
         for defs in (["WITNESS_T=std::string"], ["WITNESS_GREATER"]):
             tu2 = ir.extract("witness/C05_multiway_merge.cpp", defines=defs, extra_flags=["-include", "string"])
@@ -496,34 +503,42 @@ def check_dispatch(ck, tu):
         vs = {0, 1, 2, 3}
         top = kids(fn.body)
         ksw = None
+
+        def remap(s, vs):
+            """`if (<constants> && mwma == A) mwma = B;` narrows the value set of the algorithm tag"""
+            c, t, e = kids(s)
+            asg = [match.binop(x, ("=",)) for x in ir.walk(t) if match.binop(x, ("=",)) and ref_of(match.binop(x, ("=",))[1]) == mw]
+            if not asg:
+                return vs, False
+            conj = []
+
+            def flat(n):
+                b = match.binop(n, ("&&",))
+                if b and strip_casts(n)["k"] == "BinaryOperator":
+                    flat(b[1]); flat(b[2])
+                else:
+                    conj.append(n)
+            flat(c)
+            const_ok, eqv, unknown = True, None, False
+            for x in conj:
+                cv = const_int(x)
+                b = match.binop(x, ("==",))
+                if cv is not None:
+                    const_ok = const_ok and bool(cv)
+                elif b and ref_of(b[1]) == mw and const_int(b[2]) is not None:
+                    eqv = const_int(b[2])
+                else:
+                    unknown = True
+            if unknown or e is not None or len(asg) != 1 or const_int(asg[0][2]) is None:
+                raise dtable.Undecidable("%s: rewrite of the algorithm tag not understood" % fn.nloc(s))
+            if const_ok and eqv is not None and eqv in vs:
+                vs = (vs - {eqv}) | {const_int(asg[0][2])}
+            return vs, True
         for s in top:
             if s["k"] == "IfStmt":
-                c, t, e = kids(s)
-                # conjuncts: constants and (mwma == C)
-                conj = []
-
-                def flat(n):
-                    b = match.binop(n, ("&&",))
-                    if b and strip_casts(n)["k"] == "BinaryOperator":
-                        flat(b[1]); flat(b[2])
-                    else:
-                        conj.append(n)
-                flat(c)
-                const_ok, eqv, unknown = True, None, False
-                for x in conj:
-                    cv = const_int(x)
-                    b = match.binop(x, ("==",))
-                    if cv is not None:
-                        const_ok = const_ok and bool(cv)
-                    elif b and ref_of(b[1]) == mw and const_int(b[2]) is not None:
-                        eqv = const_int(b[2])
-                    else:
-                        unknown = True
-                asg = [match.binop(x, ("=",)) for x in ir.walk(t) if match.binop(x, ("=",)) and ref_of(match.binop(x, ("=",))[1]) == mw]
-                if unknown or e is not None or len(asg) != 1 or const_int(asg[0][2]) is None:
+                vs, was = remap(s, vs)
+                if not was:
                     raise dtable.Undecidable("%s: statement before the dispatch switch not understood" % fn.nloc(s))
-                if const_ok and eqv is not None and eqv in vs:
-                    vs = (vs - {eqv}) | {const_int(asg[0][2])}
             elif s["k"] == "SwitchStmt":
                 ksw = s
         ck.require(ksw is not None, "%s: switch(k) not found" % fn.loc)
@@ -540,9 +555,17 @@ def check_dispatch(ck, tu):
                 classes[cur].append(e[1])
         ck.require(set(classes) >= {0, 1, 2, 3, 4, "default"}, "%s: switch(k) lacks a case (%s)" % (fn.loc, sorted(map(str, classes))))
         problems = 0
+        vs_top = vs
         for kc, stmts in classes.items():
             inner = [x for s in stmts for x in ir.walk(s) if x["k"] == "SwitchStmt"]
             reach = {}
+            # rewrites of the tag inside this k-class, in front of its own switch
+            vs = set(vs_top)
+            for s0 in stmts:
+                for x in ([s0] if s0["k"] == "IfStmt" else [y for y in kids(s0) if y and y["k"] == "IfStmt"] if s0["k"] == "CompoundStmt" else []):
+                    if inner and any(z is inner[0] for z in ir.walk(x)):
+                        continue
+                    vs, _ = remap(x, vs)
             if inner:
                 fl = flatten_switch(kids(inner[0])[1])
                 cases = {}
@@ -585,7 +608,7 @@ def check_dispatch(ck, tu):
                     ck.ok("DISPATCH-TOTAL", site, "-> " + ",".join(sorted(set(c["callee"]["name"] for c in impl))) if impl else "-> nothing to do", nontrivial=bool(impl))
         if not problems:
             ck.ok("STABLE-PROPAGATE", "multiway_merge_base" + tag, "every reachable callee carries Stable=%s or is inherently stable" % fn.targs[0])
-            ck.ok("SENTINEL-REACH", "multiway_merge_base" + tag, "mwma value set after the guard: %s" % sorted(MWMA[v] for v in vs))
+            ck.ok("SENTINEL-REACH", "multiway_merge_base" + tag, "mwma value set after the guard: %s" % sorted(MWMA[v] for v in vs_top))
 
 
 # ------------------------------------------------------------------ loser-tree drivers
